@@ -191,6 +191,24 @@ func init() {
 				out.Violate("C12|bysource-count:"+string(s), fmt.Sprintf("BySource(%s) lists %d lints, metadata says %d", s, nBy, nMeta), string(s), nMeta, nBy)
 			}
 		}
+		metaSrc := map[string]string{}
+		for _, l := range info {
+			metaSrc[l.Src] = l.Name
+		}
+		listed := map[string]bool{}
+		for _, s := range g.Sources() {
+			listed[string(s)] = true
+		}
+		for s, by := range metaSrc {
+			if !listed[s] {
+				out.Violate("C12|source-not-listed:"+s, fmt.Sprintf("Sources() does not list %s although lint %s carries it", s, by), map[string]interface{}{"source": s, "lint": by}, nil, nil)
+			}
+		}
+		for s := range listed {
+			if _, ok := metaSrc[s]; !ok {
+				out.Violate("C12|source-without-lint:"+s, "Sources() lists "+s+" which no registered lint carries", s, nil, nil)
+			}
+		}
 		// registration histories through the unexported register methods (hook) vs the model
 		nHist := 150
 		if tier() == "thorough" {
